@@ -7,7 +7,8 @@ sees the difference, with more instances the state of instance 0 decides what ha
 Rule: in every function that subscripts a pointer variable P, P is dereferenced only through a subscript -
 except for fields that hold the same value in every element (the `Node` back-pointer, stored identically for
 all elements by the record initialisers)."""
-from canalyze.ir import walk, strip, show, callee_name
+from canalyze.ir import walk, strip, show, callee_name, const_eval
+from canalyze import flow
 
 # per-element record -> properties whose text speaks about that service
 RECORD_PROPS = {
@@ -108,5 +109,83 @@ def run(ctx):
                                  'which works on one record' % (fname, a0.name, nm))
         if hit:
             nf += 1
+    base_vs_element(ctx)
     ctx.inst('RF14.functions', nf)
     ctx.require_min(allp, 'RF14', nf, MIN_FUNCS, 'functions that subscript a service-record array')
+
+
+def _element_pointer(x):
+    """x is `&A[e]` or `A + e` with e not the constant 0: a pointer to ONE element"""
+    x = strip(x)
+    if x is None:
+        return None
+    if x.k == 'un' and x.op == '&':
+        t = strip(x.kids[0])
+        if t.k == 'idx' and const_eval(t.kids[1]) != 0:
+            return t
+    if x.k == 'bin' and x.op == '+':
+        a, b = strip(x.kids[0]), strip(x.kids[1])
+        if (a.cty or '').rstrip().endswith('*') and const_eval(b) != 0:
+            return x
+    return None
+
+
+def base_vs_element(ctx):
+    """RF14b - the converse: a callee that subscripts its record-array parameter with an index of its own
+    (`CORPdoReset(pdo, num)` works on `pdo[num]`) must be handed the array BASE.  Handing it a pointer to one element
+    (`&node->RPdo[num]`, directly or through a local) applies the index twice: channel k is taken for channel 2k -
+    invisible for element 0, which is all the tests configure."""
+    m = ctx.m
+    n_sites = 0
+    allp = sorted(set(p for v in RECORD_PROPS.values() for p in v))
+    for fname, fn in sorted(m.funcs.items()):
+        g = None
+        defs = None
+        for n in walk(fn.body):
+            if n.k != 'call':
+                continue
+            nm = callee_name(n)
+            cal = m.funcs.get(nm) if nm else None
+            if cal is None:
+                continue
+            csub = _subscripted(cal)
+            for i, a in enumerate(n.kids[1:]):
+                if i >= len(cal.params) or cal.params[i][3] not in csub:
+                    continue
+                rec = _rec_of(cal.params[i][2])
+                props = RECORD_PROPS.get(rec)
+                if props is None:
+                    continue
+                # does the callee index with something else than the constant 0?
+                idx_nonzero = any(x.k == 'idx' and strip(x.kids[0]).k == 'ref' and strip(x.kids[0]).ref == cal.params[i][3]
+                                  and const_eval(x.kids[1]) != 0 for x in walk(cal.body))
+                if not idx_nonzero:
+                    continue
+                n_sites += 1
+                site = '%s: %s' % (m.loc(fname, n), show(n)[:70])
+                elem = _element_pointer(a)
+                a0 = strip(a)
+                if elem is None and a0 is not None and a0.k == 'ref' and a0.refk == 'VarDecl':
+                    if g is None:
+                        g = m.cfg(fname)
+                        defs = m.defs_of(fname)
+                    nid = m.node_of(fname, n)
+                    if nid is not None:
+                        for dn in defs.defs(nid, a0.ref):
+                            if dn is None or dn < 0:
+                                continue
+                            for (p_, rhs, asg) in flow.assigned_paths(g.nodes[dn].x):
+                                if p_ is not None and len(p_) == 1 and p_[0][1] == a0.ref and rhs is not None:
+                                    e2 = _element_pointer(rhs)
+                                    if e2 is not None:
+                                        elem = e2
+                if elem is None:
+                    ctx.ob(props, 'RF14', fname, site, 'array base handed to %s, which subscripts it' % nm, nontrivial=False)
+                else:
+                    ctx.ob(props, 'RF14', fname, site, None)
+                    ctx.find(props, 'RF14', fname, 'element-as-base:%s' % nm, m.loc(fname, n),
+                             '%s hands %s a pointer to ONE element (%s) although %s subscripts that parameter with its own index: '
+                             'the index is applied twice (channel k is taken for channel 2k; invisible for element 0)'
+                             % (fname, nm, show(elem)[:60], nm))
+    ctx.inst('RF14.base-argument-sites', n_sites)
+    ctx.require_min(allp, 'RF14', n_sites, 10, 'calls that hand a record array to a subscripting callee')
